@@ -410,13 +410,6 @@ func c07Segmentation(rng *lab.Rand, n int) (string, []int) {
 	}
 }
 
-func sortInts(a []int) {
-	for i := 1; i < len(a); i++ {
-		for j := i; j > 0 && a[j] < a[j-1]; j-- {
-			a[j], a[j-1] = a[j-1], a[j]
-		}
-	}
-}
 
 // c07Deliver writes the stream in the given segmentation and counts the replies the proxy sends back.
 func c07Deliver(addr, proto string, stream []byte, cuts []int, nreq int, rng *lab.Rand) (replies int, why string) {
